@@ -552,6 +552,7 @@ func (fx *FuncCtx) allocatedInside(lf *loopFrame, rid Term) bool {
 // --- no-read-before-write (poison) -------------------------------------------
 
 func (fx *FuncCtx) noteRead(st *State, sv SliceV, idx Term, node ast.Node) {
+	fx.checkLoad(st, sv, idx, node)
 	if fx.poison == nil {
 		return
 	}
@@ -559,13 +560,88 @@ func (fx *FuncCtx) noteRead(st *State, sv SliceV, idx Term, node ast.Node) {
 }
 
 func (fx *FuncCtx) noteReadRange(st *State, sv SliceV, lo, n Term, node ast.Node) {
-	if fx.poison == nil {
+	if fx.poison == nil && !fx.readsChecked() {
 		return
 	}
 	k := fx.freshConst("k_rd", SInt)
 	s2 := st.clone()
 	s2.assume(And(Le(lo, k), Lt(k, Add(lo, n))))
-	fx.checkPoison(s2, sv, k, node)
+	fx.checkLoad(s2, sv, k, node)
+	if fx.poison != nil {
+		fx.checkPoison(s2, sv, k, node)
+	}
+}
+
+// --- read frames -----------------------------------------------------------------
+// A contract with a `reads` clause promises that every load from memory the
+// caller can see lies inside the declared read families or the write families
+// (a routine may read back what it is allowed to write).
+
+func (fx *FuncCtx) readsChecked() bool {
+	return fx.con != nil && fx.con.HasReads && fx.discard == 0
+}
+
+func (fx *FuncCtx) entryReadFamilies() []famInst {
+	if fx.rfamCache == nil {
+		env := &specEnv{fx: fx, cur: fx.entry, old: fx.entry, binds: map[string]sval{}, entryParams: true}
+		fx.rfamCache = fx.instFamilies(env, fx.con.Reads)
+		if fx.rfamCache == nil {
+			fx.rfamCache = []famInst{}
+		}
+	}
+	return append(append([]famInst{}, fx.rfamCache...), fx.entryFamilies()...)
+}
+
+func (fx *FuncCtx) checkLoad(st *State, sv SliceV, idx Term, node ast.Node) {
+	if !fx.readsChecked() || isAllocTerm(sv.Rid) {
+		return
+	}
+	if _, isStruct := sv.Elem.Underlying().(*types.Struct); isStruct {
+		return
+	}
+	fx.curNode = node
+	fams := fx.entryReadFamilies()
+	addr := Add(sv.Off, idx)
+	goal := fx.memberGoal(st, fams, sv.Rid, addr, []Term{idx})
+	if goal.S != "true" {
+		if !fx.proves(st.hypTerms(), goal, fx.eng.quickTimeoutMs) {
+			goal = Or(goal, fx.memberGoalExists(fams, sv.Rid, addr))
+		}
+	}
+	fx.oblige(st, "rframe", goal, node, "")
+}
+
+// checkCallReadFrame: the callee's read (and write) family lies inside our reads ∪ writes.
+func (fx *FuncCtx) checkCallReadFrame(st *State, f famInst, node ast.Node, what string) {
+	if !fx.readsChecked() || isAllocTerm(f.sl.Rid) {
+		return
+	}
+	fx.curNode = node
+	fams := fx.entryReadFamilies()
+	s2 := st.clone()
+	if f.whole {
+		k := fx.freshConst("k_rw", SInt)
+		s2.assume(And(Ge(k, IntLit(0)), Lt(k, f.sl.Len)))
+		goal := fx.memberGoal(s2, fams, f.sl.Rid, Add(f.sl.Off, k), []Term{k})
+		fx.oblige(s2, "call.rframe", goal, node, what+" reads "+f.src)
+		return
+	}
+	var rng []Term
+	for i, v := range f.vars {
+		rng = append(rng, Le(f.lo[i], v), Lt(v, f.hi[i]))
+	}
+	rng = append(rng, f.cond)
+	s2.assume(And(rng...))
+	addr := Add(f.sl.Off, f.index)
+	extra := append([]Term{}, f.vars...)
+	extra = append(extra, f.index)
+	goal := fx.memberGoal(s2, fams, f.sl.Rid, addr, extra)
+	if goal.S != "true" {
+		if !fx.proves(s2.hypTerms(), goal, fx.eng.quickTimeoutMs) {
+			goal = Or(goal, fx.memberGoalExists(fams, f.sl.Rid, addr))
+		}
+	}
+	fx.oblige(s2, "call.rframe", goal, node, what+" reads "+f.src)
 }
 
 func mentionsAnyVar(t Term, vars []Term) bool {
